@@ -92,8 +92,14 @@ def rule_err_pass(ctx):
     for r in bm["rejections"]:
         if r["kind"] == "propagate" and r["callee"] == "PurlShape::finish":
             t = body.term(r["bb"])
-            args = t["callee"].get("args", [])
-            ok = len(args) == 2 and args[0] == "std::result::Result<GenericPurl<T>, <T as PurlShape>::Error>" and args[1] == "std::result::Result<std::convert::Infallible, <T as PurlShape>::Error>"
+            if r.get("via") == "match-err" or not (t["t"] == "call" and "callee" in t and str(t["callee"].get("path", "")).endswith("from_residual")):
+                # `match finish(..) { Ok(()) => {}, Err(e) => return Err(e) }`: the returned value is Err(<the hook's error>) with
+                # no conversion in between (models.classify_return gives `propagate` only to that aggregate and to from_residual)
+                args = ["explicit `Err(e) => return Err(e)`"]
+                ok = True
+            else:
+                args = t["callee"].get("args", [])
+                ok = len(args) == 2 and args[0] == "std::result::Result<GenericPurl<T>, <T as PurlShape>::Error>" and args[1] == "std::result::Result<std::convert::Infallible, <T as PurlShape>::Error>"
             ctx.ob("ERR-PASS", "the hook's error is returned unchanged (residual type = return error type, reflexive From)", ok, fn=key, site=r["site"], detail=str(args))
             ctx.ob("ERR-PASS", "no GenericPurl is constructed on the hook's error path", not any(k == key and b == r["bb"] for (k, b, _) in models.aggregates_of(facts, "GenericPurl")), fn=key, site=r["site"], detail="")
     pm = models.parser_model(facts)
@@ -140,6 +146,12 @@ def rule_post_hook_frame(ctx):
         ok = nm in allowed and fld == allowed[nm]
         ctx.ob("POST-HOOK-FRAME", "after the hook: mutable access %s on %s is one of the generic clean-ups" % (nm, fld), ok, fn=key, site=site, detail=p)
     ctx.ob("POST-HOOK-FRAME", "after the hook the parts are mutated by exactly: qualifiers.retain, qualifiers.insert(checksum)", sorted(p.split("::")[-1] for p, _, _ in after) == ["insert", "retain"], fn=key, detail=str([(p.split("::")[-1], f) for p, f, _ in after]))
+    # the order of the generic clean-ups: a checksum the hook emptied is an empty-valued qualifier -- removed, not refused
+    if len(st["S3"]) == 1 and len(st["S4get"]) == 1:
+        s3, s4g = st["S3"][0]["bb"], st["S4get"][0]["bb"]
+        ctx.ob("POST-HOOK-FRAME", "empty-valued qualifiers are removed before the checksum is read (an emptied checksum is removed, not refused)", s3 != s4g and body.dominates(s3, s4g), fn=key, site=body.site(s4g), detail="retain bb%d, typed get bb%d" % (s3, s4g))
+    else:
+        ctx.ob("POST-HOOK-FRAME", "one retain and one typed checksum read after the hook", False, fn=key, detail="retain sites: %d, typed get sites: %d" % (len(st["S3"]), len(st["S4get"])))
     pw = [w for w in body.partial_writes(1) if not body.is_cleanup(w[0])]
     for l in models.self_field_locals(body):  # `let Self { package_type, parts } = self;` -- the fields live on in locals
         pw += [w for w in body.partial_writes(l) if not body.is_cleanup(w[0])]
